@@ -15,6 +15,11 @@ Tie, re-run from VERIF_REPO's working tree on every invocation:
      identical at quiescence; every node must still be running.  thorough: more load, for each
      node in turn kill -9 during the load, restart, compare again; two scenarios with a -race build
      of the server (a race-detector report in server/ or raftexample/ code is a violation).
+ (I) the ids of all proposals of two separate process lives of the request path (hook H4, four
+     connections) are pairwise different -- the NoDup premise of C07_own_reply, across restarts.
+ (R) a single node with 360 acknowledged INCRs in its WAL is killed and restarted (2x; thorough 5x);
+     fresh connections send PING <own token> while it starts up: every non-error answer must be
+     the sender's token.
  Known findings (statement replication of SPOP; blocking pops in the apply loop) are replayed on
  the same cluster and printed as KNOWN-FINDING."""
 import collections
@@ -104,6 +109,122 @@ def shrink_apply(d, case_lines):
         else:
             i += 1
     return [head] + ws + ["END"]
+
+
+# ----------------------------------------------------------------------------- (I) unique proposal ids
+def ids_obligation(d, rounds=25):
+    """C07_own_reply assumes unique proposal ids.  Checked: the ids of all proposals of two separate
+    process lives of a node's request path (hook VerifClusterLoopbackMulti, four connections) are
+    pairwise different -- within a life and across lives (the WAL replays the ids of earlier lives
+    through the apply loop after a restart).  Returns (n_ids, failing, err)."""
+    lives = []
+    for life in (1, 2):
+        out = d / ("ids%d.txt" % life)
+        rc, log = lib.sh("timeout 120 %s idsrun %d %s %s" % (lib.BUILD / HB, rounds, out, d), cwd=d, timeout=150,
+                         extra_env={"GOMAXPROCS": "1"})
+        if rc != 0 or not out.exists():
+            return 0, None, "idsrun rc=%s %s" % (rc, re.sub(r"[^\x20-\x7e\n]+", " ", log)[-800:])
+        lives.append(out.read_text().split("\n")[:-1])
+    seen = {}
+    for li, ids in enumerate(lives):
+        for pos, i in enumerate(ids):
+            if i in seen:
+                return sum(map(len, lives)), dict(
+                    kind="proposal-id-not-unique", id=i, first=dict(process_life=seen[i][0] + 1, log_position=seen[i][1] + 1),
+                    again=dict(process_life=li + 1, log_position=pos + 1), ids_obligation=dict(rounds=rounds),
+                    sample_life_1=lives[0][:4], sample_life_2=lives[1][:4],
+                    note="C07_own_reply needs NoDup ids: after a restart the node replays its WAL through handleClusterCommits, and a "
+                         "connection registered under an id that also names an old entry is handed the old entry's result"), None
+            seen[i] = (li, pos)
+    return sum(map(len, lives)), None, None
+
+
+# ----------------------------------------------------------------------------- (R) own reply across a restart
+def restart_own_reply(ctx, binary, attempts, nclients=24, tag="r"):
+    """Single node with a few hundred acknowledged commands of its own in the WAL; kill -9; restart on
+    the same WAL; as soon as the port is open again fresh connections each send PING <own token>.
+    Every answer that is not an error must be the sender's token.  (Errors -- a proposal time-out
+    during a slow start-up -- say nothing and are counted.)  The window is the node's start-up, so the
+    crash is repeated.  Returns (failing, err, stats)."""
+    stats = dict(restarts=0, startup_commands=0, startup_errors=0)
+    cluster = clusterlib.Cluster(binary, 1, tag="c07" + tag)
+    try:
+        cluster.start_all()
+        err = cluster.wait_ready()
+        if err:
+            return None, "cluster start-up: " + err, stats
+        hist_errs = []
+
+        def writer(w):
+            try:
+                c = cluster.client(0, timeout=20.0)
+                for i in range(60):
+                    if not c.cmd([b"incr", b"hist:ctr"]).startswith(":"):
+                        hist_errs.append("INCR not acknowledged")
+                        break
+                c.close()
+            except Exception as e:   # noqa: BLE001
+                hist_errs.append(repr(e))
+        ws = [threading.Thread(target=writer, args=(w,)) for w in range(6)]
+        for t in ws:
+            t.start()
+        for t in ws:
+            t.join(60)
+        if hist_errs:
+            return None, "could not write the history of the first life: %s" % hist_errs[:2], stats
+        time.sleep(0.4)
+        for attempt in range(1, attempts + 1):
+            cluster.kill(0)
+            res = [None] * nclients
+
+            def fresh(ci):
+                tok = b"own-%d-%d-%d" % (ctx.seed, attempt, ci)
+                end = time.time() + 20
+                while time.time() < end:
+                    try:
+                        c = clusterlib.Client(cluster.kv_ports[0], timeout=25.0)
+                    except OSError:
+                        time.sleep(0.002)
+                        continue
+                    try:
+                        res[ci] = (tok, c.cmd([b"ping", tok]))
+                    except (OSError, clusterlib.ConnClosed, socket.timeout, ValueError) as e:
+                        res[ci] = (tok, "-conn %r" % (e,))
+                    c.close()
+                    return
+                res[ci] = (tok, "-no connection")
+            ths = [threading.Thread(target=fresh, args=(ci,)) for ci in range(nclients)]
+            for t in ths:
+                t.start()
+            cluster.start(0)
+            for t in ths:
+                t.join(60)
+            stats["restarts"] += 1
+            wrong = []
+            for ci, r in enumerate(res):
+                if r is None:
+                    stats["startup_errors"] += 1
+                    continue
+                tok, rep = r
+                stats["startup_commands"] += 1
+                if rep.startswith("-"):
+                    stats["startup_errors"] += 1
+                elif rep != "$" + tok.hex():
+                    wrong.append(dict(client=ci, sent="PING %s" % tok.decode(), received=rep))
+            if wrong:
+                return dict(kind="reply-to-someone-elses-command-after-restart", restart=attempt, n_wrong=len(wrong), n_clients=nclients,
+                            examples=wrong[:5], restart_scenario=dict(attempts=attempts, clients=nclients, seed=ctx.seed),
+                            note="the node was killed with 360 acknowledged INCRs (and the readiness PING) in its WAL and restarted; these connections "
+                                 "sent their first command while the node was starting up and were answered with the reply of a replayed old entry "
+                                 "(':n' = an INCR of the previous life, '+PONG' = the probe); each client must receive the reply to its own command"), None, stats
+            if not cluster.alive(0):
+                return dict(kind="node-down-after-restart", reason=cluster.crash_reason(0) or cluster.output(0, 1200)), None, stats
+            err = cluster.wait_ready(timeout=40)
+            if err:
+                return None, "node did not serve after restart %d: %s" % (attempt, err), stats
+        return None, None, stats
+    finally:
+        cluster.close()
 
 
 # ----------------------------------------------------------------------------- (V)
@@ -460,6 +581,17 @@ def run(ctx):
             out = (d / "replay.lin").read_text()
             print(out)
             return 1 if "NONLIN" in out else 0
+        if r.get("ids_obligation"):
+            n, f, err = ids_obligation(d, r["ids_obligation"].get("rounds", 25))
+            print(json.dumps(f or err or "proposal ids of two process lives are pairwise different (%d ids)" % n, indent=1))
+            return 1 if (f or err) else 0
+        if r.get("restart_scenario"):
+            ok, log, binary = clusterlib.build_server()
+            w = r["restart_scenario"]
+            ctx.seed = w.get("seed", ctx.seed)
+            f, err, st = restart_own_reply(ctx, binary, w.get("attempts", 4), w.get("clients", 24), tag="replay")
+            print(json.dumps(f or err or "every client received its own reply (%s)" % st, indent=1, default=str))
+            return 1 if (f or err) else 0
         if r.get("workload"):
             ok, log, binary = clusterlib.build_server()
             w = r["workload"]
@@ -481,11 +613,32 @@ def run(ctx):
         if diff:
             diff["case_lines"] = shrink_apply(d, diff["case_lines"])
             failing = diff
+    nids, rstats = 0, {}
+    if not err and not failing:
+        nids, ids_failing, err = ids_obligation(d, 25 if quick else 400)
+        if ids_failing:
+            # the premise of C07_own_reply is broken: look for a client that is handed a foreign reply
+            failing = ids_failing
+            ok, log, binary = clusterlib.build_server()
+            if ok:
+                f, e, rstats = restart_own_reply(ctx, binary, 4)
+                if f:
+                    f["broken_premise"] = {k: ids_failing[k] for k in ("kind", "id", "first", "again", "sample_life_1", "sample_life_2")}
+                    failing = f
     if not err and not failing:
         ok, log, binary = clusterlib.build_server()
         if not ok:
             err = "server build failed: " + log[-1500:]
         else:
+            for attempt in range(2):
+                f, e, rstats = restart_own_reply(ctx, binary, 2 if quick else 5)
+                if not (e and e.startswith("cluster start-up")):
+                    break
+            if f:
+                failing = f
+            err = err or e
+    if not err and not failing:
+        if True:
             plan = [(9, 120, None, False)] if quick else [(9, 400, None, False), (12, 250, 0, False), (12, 250, 1, False), (12, 250, 2, False),
                                                           (9, 200, None, True), (12, 150, 1, True)]
             race_binary = None
@@ -528,8 +681,9 @@ def run(ctx):
             print("KNOWN-FINDING: property=%s %s %s%s" % (PID, kf["id"], kf["text"], (" [this run: %s]" % obs) if obs else ""))
     tot_ops = sum(v.get("ops", 0) + v.get("burst_ops", 0) for v in vstats)
     cov.update(dict(
-        evaluations=nbatches + tot_ops,
+        evaluations=nbatches + tot_ops + nids + rstats.get("startup_commands", 0),
         ready_batches=nbatches, cluster_scenarios=vstats, client_operations=tot_ops,
+        proposal_ids_checked_unique_over_two_process_lives=nids, restart_own_reply=rstats,
         linearizability_states_explored=sum(v.get("explored", 0) for v in vstats),
         distinct_nontrivial=len(NONTRIVIAL) + sum(v.get("keys", 0) for v in vstats),
         rule="(D) seeded logs of 0-39 entries (commands and leader no-op entries) with index base in {0,1,5,1000,2^32,2^61} and 1-24 Ready batches each, "
